@@ -114,7 +114,7 @@ ResultsOf(ch) == UNION {{[t |-> t, p |-> p, op |-> IF ch[t][p] = "DEL" THEN "del
 \* a waiting northbound handler examines an event of its transaction (set.go / admin.go)
 HandlerSees(hr, tx) ==
     IF hr.st # "waiting" \/ hr.tx # tx.i THEN hr
-    ELSE IF (~tx.sync /\ tx.state = "COMMITTED") \/ (tx.sync /\ tx.state = "APPLIED")
+    ELSE IF (~tx.sync /\ tx.state \in {"COMMITTED", "APPLIED"}) \/ (tx.sync /\ tx.state = "APPLIED")
          THEN [hr EXCEPT !.st = "done", !.ok = TRUE, !.code = 0, !.ridx = tx.i, !.rown = TRUE,
                          !.results = IF hr.kind = "set" THEN ResultsOf(hr.ch) ELSE {}]
     ELSE IF tx.state = "FAILED"
@@ -131,7 +131,7 @@ CProp(S, id, rec)     == [k |-> "propc", key |-> id, rec |-> rec, ver |-> 0]
 WProp(S, id, rec)     == [k |-> "prop", key |-> id, rec |-> rec, ver |-> Ver(S, "prop", id)]
 CCfg(S, t, rec)       == [k |-> "cfgc", key |-> t, rec |-> rec, ver |-> 0]
 WCfgS(S, t, rec, er)  == [k |-> "cfgs", key |-> t, rec |-> rec, ver |-> Ver(S, "cfg", t), er |-> er, wv |-> FALSE]
-\* UpdateStatus with Status.Applied.Values set also writes the (shared) value map
+\* UpdateStatus with Status.Applied.Values set also writes the applied value map
 WCfgSV(S, t, rec, er) == [k |-> "cfgs", key |-> t, rec |-> rec, ver |-> Ver(S, "cfg", t), er |-> er, wv |-> TRUE]
 WCfgU(S, t, rec, by)  == [k |-> "cfgu", key |-> t, rec |-> rec, ver |-> Ver(S, "cfg", t), by |-> by]
 CRel(id, t)           == [k |-> "relc", key |-> id, t |-> t]
@@ -191,8 +191,9 @@ Apply(S, e) ==
       [] e.k = "cfgs" ->
             IF e.key \notin DOMAIN S.cfgs \/ Ver(S, "cfg", e.key) # e.ver
             THEN [S |-> S, go |-> IF e.er THEN GoErr ELSE GoStop]
-            \* UpdateStatus does not touch the value map unless Status.Applied.Values is set
-            ELSE LET rec == IF e.wv THEN e.rec ELSE [e.rec EXCEPT !.values = S.cfgs[e.key].values]
+            \* UpdateStatus never touches the committed values, and the applied values only if they are set
+            ELSE LET rec == [e.rec EXCEPT !.values = S.cfgs[e.key].values,
+                                          !.avalues = IF e.wv THEN e.rec.avalues ELSE S.cfgs[e.key].avalues]
                      S1 == BumpVer([S EXCEPT !.cfgs[e.key] = rec], "cfg", e.key)
                  IN [S |-> WakeCfg(S1, e.key, rec), go |-> GoCont]
       [] e.k = "cfgu" ->
@@ -202,7 +203,7 @@ Apply(S, e) ==
                                                         before |-> before,
                                                         after |-> IF okv THEN VO!LiveView(e.rec.values) ELSE before])]
             IN IF ~okv THEN [S |-> Sm, go |-> GoErr]
-               ELSE LET S1 == BumpVer([Sm EXCEPT !.cfgs[e.key] = e.rec], "cfg", e.key)
+               ELSE LET S1 == BumpVer([Sm EXCEPT !.cfgs[e.key] = [e.rec EXCEPT !.avalues = S.cfgs[e.key].avalues]], "cfg", e.key)
                     IN [S |-> WakeCfg(S1, e.key, e.rec), go |-> GoCont]
       [] e.k = "relc" ->
             IF e.key \in DOMAIN S.rels THEN [S |-> S, go |-> GoStop]
@@ -356,7 +357,7 @@ TxPlans(S, i) ==
 (* Proposal reconciler (pkg/controller/v2/proposal/controller.go) *)
 
 NewCfg(i) == [index |-> 0, proposed |-> i, committed |-> 0, applied |-> 0, state |-> "UNKNOWN",
-              master |-> "", term |-> 0, amaster |-> "", aterm |-> 0, values |-> VO!EmptyMap]
+              master |-> "", term |-> 0, amaster |-> "", aterm |-> 0, values |-> VO!EmptyMap, avalues |-> VO!EmptyMap]
 
 \* change values as stored in the proposal: stamped with the transaction index
 ChangeVals(p) == [path \in DOMAIN p.ch |-> IF p.ch[path] = "DEL" THEN VO!Tomb(p.i) ELSE VO!Val(p.ch[path], p.i)]
@@ -473,7 +474,7 @@ PropApplyPlans(S, id, p) ==
                                sUpd == [path \in {x \in DOMAIN sent : ~sent[x].d} |-> sent[path].v]
                                sDel == {x \in DOMAIN sent : sent[x].d}
                                okCfg == [cfg EXCEPT !.applied = p.i,
-                                                    !.values = VO!StoreValues(cfg.values, VO!Merge(cfg.values, upd))]
+                                                    !.avalues = VO!StoreValues(cfg.avalues, VO!Merge(cfg.avalues, upd))]
                            IN << DevSet(p.t, "prop", id, cfg.master, cfg.term, sUpd, sDel,
                                     \* PAp-ok
                                     << WCfgSV(S, p.t, okCfg, TRUE),
@@ -507,9 +508,9 @@ RECURSIVE PushGroups(_, _, _, _, _)
 PushGroups(S, t, cfg, groups, final) ==
     IF groups = << >> THEN final
     ELSE LET idx == Head(groups)
-             grp == {path \in DOMAIN cfg.values : cfg.values[path].i = idx}
-             sUpd == [path \in {x \in grp : ~cfg.values[x].d} |-> cfg.values[path].v]
-             sDel == {x \in grp : cfg.values[x].d}
+             grp == {path \in DOMAIN cfg.avalues : cfg.avalues[path].i = idx}
+             sUpd == [path \in {x \in grp : ~cfg.avalues[x].d} |-> cfg.avalues[path].v]
+             sDel == {x \in grp : cfg.avalues[x].d}
          IN << DevSet(t, "cfg", t, cfg.master, cfg.term, sUpd, sDel,
                       PushGroups(S, t, cfg, Tail(groups), final),
                       [class \in {"UNKNOWN", "NOT_FOUND", "ALREADY_EXISTS", "UNAUTHORIZED", "CONFLICT",
@@ -527,7 +528,7 @@ CfgPlans(S, t) ==
          ELSE IF cfg.master = "" THEN {<< >>}                                                      \* CF-nomaster
          ELSE IF cfg.applied = 0 THEN {<< synced >>}                                               \* CF-empty
          ELSE IF MasterConn(S, cfg, t) = NoId THEN {<< >>}                                         \* CF-wait
-         ELSE LET idxs == {cfg.values[path].i : path \in DOMAIN cfg.values}
+         ELSE LET idxs == {cfg.avalues[path].i : path \in DOMAIN cfg.avalues}
               IN { PushGroups(S, t, cfg, ord, << synced >>) : ord \in VO!Orders(idxs) }            \* CF-push
 
 MastPlans(S, t) ==
@@ -639,6 +640,33 @@ ClientRequest(n, req) ==
           /\ h' = Put(h, n, NewHandler(req, i))
     /\ UNCHANGED <<up, props, cfgs, rels, conns, dev, failq, infl, devlog, mergelog, pluglog>>
 
+\* The same request at the granularity of the handler's two store calls (C08): the controllers may
+\* run none, some or all phases of the transaction between Create and Watch.
+ClientStart(n, req) ==
+    /\ up
+    /\ n \notin DOMAIN h
+    /\ h' = Put(h, n, [NewHandler(req, 0) EXCEPT !.st = "new"])
+    /\ UNCHANGED <<up, txs, props, cfgs, vers, rels, conns, dev, failq, q, infl, devlog, mergelog, pluglog>>
+
+\* transactions.Create: the request is in the log
+ClientCreate(n) ==
+    /\ up
+    /\ n \in DOMAIN h /\ h[n].st = "new"
+    /\ LET i == Len(txs) + 1
+           req == [kind |-> IF h[n].kind = "set" THEN "change" ELSE "rollback", sync |-> h[n].sync, rb |-> h[n].rb, ch |-> h[n].ch]
+       IN /\ txs' = Append(txs, NewTx(i, req))
+          /\ vers' = Put(vers, <<"tx", i>>, 1)
+          /\ q' = [q EXCEPT !["tx"] = @ \cup {i}]
+          /\ h' = [h EXCEPT ![n].st = "created", ![n].tx = i]
+    /\ UNCHANGED <<up, props, cfgs, rels, conns, dev, failq, infl, devlog, mergelog, pluglog>>
+
+\* transactions.Watch(replay, id): the listener is registered and the current record is replayed to it
+ClientWatch(n) ==
+    /\ up
+    /\ n \in DOMAIN h /\ h[n].st = "created"
+    /\ h' = [h EXCEPT ![n] = HandlerSees([h[n] EXCEPT !.st = "waiting"], txs[h[n].tx])]
+    /\ UNCHANGED <<up, txs, props, cfgs, vers, rels, conns, dev, failq, q, infl, devlog, mergelog, pluglog>>
+
 \* --- environment --------------------------------------------------------------------------
 ConnUp(t, id) ==
     /\ up
@@ -655,9 +683,12 @@ ConnDown(id) ==
     /\ UNCHANGED <<up, txs, props, cfgs, vers, rels, dev, failq, infl, h, devlog, mergelog, pluglog>>
 
 DevRestart(t) ==
-    /\ TRUE
+    \* the device reboots and loses its running configuration; its connections break with it
     /\ dev' = [dev EXCEPT ![t] = [vals |-> EmptyFn, boot |-> @.boot + 1, maxeid |-> 0]]
-    /\ UNCHANGED <<up, txs, props, cfgs, vers, rels, conns, failq, q, infl, h, devlog, mergelog, pluglog>>
+    /\ LET lost == {id \in DOMAIN conns : conns[id] = t} IN
+         /\ conns' = Drop(conns, lost)
+         /\ q' = IF up THEN [q EXCEPT !["conn"] = @ \cup lost] ELSE q
+    /\ UNCHANGED <<up, txs, props, cfgs, vers, rels, failq, infl, h, devlog, mergelog, pluglog>>
 
 DevFail(t, code, n) ==
     /\ TRUE
@@ -681,15 +712,16 @@ Restart ==
     /\ q' = [c \in Ctls |->
                CASE c = "tx" -> (1..Len(txs)) \cup {props[id].i : id \in DOMAIN props}
                  [] c = "prop" -> (DOMAIN props) \cup UNION {{PID(t, cfgs[t].index), PID(t, cfgs[t].applied)} : t \in DOMAIN cfgs}
-                 [] c = "cfg" -> Targets \cup DOMAIN cfgs
-                 [] c = "mast" -> Targets \cup DOMAIN cfgs \cup {rels[r] : r \in DOMAIN rels}
+                 [] c = "cfg" -> (DOMAIN dev) \cup DOMAIN cfgs
+                 [] c = "mast" -> (DOMAIN dev) \cup DOMAIN cfgs \cup {rels[r] : r \in DOMAIN rels}
                  [] c = "conn" -> DOMAIN rels]
     /\ UNCHANGED <<txs, props, cfgs, vers, rels, conns, dev, failq, infl, h, devlog, mergelog, pluglog>>
 
 Next ==
     \/ \E c \in Ctls : \E id \in q[c] : Deliver(c, id) \/ Begin(c, id)
     \/ \E a \in DOMAIN infl : Exec(a)
-    \/ \E n \in HandlerNames, req \in Requests : ClientRequest(n, req)
+    \/ \E n \in HandlerNames, req \in Requests : ClientRequest(n, req) \/ ClientStart(n, req)
+    \/ \E n \in DOMAIN h : ClientCreate(n) \/ ClientWatch(n)
     \/ \E t \in Targets, id \in ConnIds : ConnUp(t, id)
     \/ \E id \in ConnIds : ConnDown(id)
     \/ \E t \in Targets : DevRestart(t)
